@@ -398,3 +398,119 @@ Proof.
   destruct (run_all_untouched k (ntens g) post st2 st3 g2 Hok Hnn Hg2 ltac:(lia) H3) as (g3 & Hg3 & T3 & _).
   exists g3, tn. split; [exact Hg3|]. split; [congruence|exact B1].
 Qed.
+
+(* ================================================================== *)
+(* The same for a tensor that IS named, but only by in-place quantization
+   (QUANTIZE_TENSOR): the dominant case of full-integer models, where every
+   activation between two quantized operators and every weight is retyped in
+   place.  Its readers are exactly the original ones, at the original slots. *)
+Definition inplace_or_quiet (t : Z) (i : inst) : Prop :=
+  is_insertion (i_trans i) = true -> i_tensor i <> t \/ i_trans i = Tr_QUANTIZE_TENSOR.
+
+Lemma apply_single_inplace st sgid i later st' later' k g :
+  0 <= sgid -> i_trans i = Tr_QUANTIZE_TENSOR ->
+  nth_opt (m_subgraphs (ps_model st)) k = Some g ->
+  apply_single st sgid i later = Ok (st', later') ->
+  later' = later /\
+  exists g', nth_opt (m_subgraphs (ps_model st')) k = Some g' /\ sg_ops g' = sg_ops g /\ ntens g' = ntens g.
+Proof.
+  intros Hs Htr Hg H. rewrite apply_single_unfold in H.
+  destruct (py_index (ps_orig st) sgid) as [om|]; cbn [bind] in H; [|discriminate].
+  destruct (py_index (ps_added st) sgid) as [am|]; cbn [bind] in H; [|discriminate].
+  destruct (py_index (m_subgraphs (ps_model st)) sgid) as [g0|] eqn:Eg; cbn [bind] in H; [|discriminate].
+  destruct (resolve om am (i_producer i)) as [producer|]; cbn [bind] in H; [|discriminate].
+  destruct (mapM _ (i_consumers i)) as [cs|]; cbn [bind] in H; [|discriminate].
+  unfold trans_of in H. rewrite Htr in H.
+  destruct (quantize_tensor (m_buffers (ps_model st)) g0 (i_tensor i) (i_params i)) as [[b2 g2]|] eqn:Q;
+    cbn [bind fst snd] in H; [|discriminate].
+  cbn [to_added Z.eqb] in H. inversion H; subst st' later'. split; [reflexivity|].
+  cbn [ps_model set_sg m_subgraphs].
+  destruct (quantize_tensor_shape _ _ _ _ _ _ Q) as (Hops & _ & _ & Hn & _).
+  apply (py_index_nonneg _ _ _ Hs) in Eg. destruct Eg as [Eg _].
+  destruct (Nat.eq_dec k (Z.to_nat sgid)) as [->|Hk].
+  - rewrite Hg in Eg. inversion Eg; subst g0. exists g2.
+    split; [apply nth_opt_set_nth_same; eapply nth_opt_Some_lt; exact Hg|]. split; assumption.
+  - exists g. split; [rewrite nth_opt_set_nth_other by exact Hk; exact Hg|]. split; reflexivity.
+Qed.
+
+Lemma apply_insts_profile2 sg k t : 0 <= sg -> forall fuel is st st' g,
+  Forall (fun i => 0 <= i_tensor i) is ->
+  nth_opt (m_subgraphs (ps_model st)) k = Some g -> 0 <= t < ntens g ->
+  (Z.to_nat sg <> k \/ Forall (inplace_or_quiet t) is) ->
+  apply_insts st sg is fuel = Ok st' ->
+  exists g', nth_opt (m_subgraphs (ps_model st')) k = Some g' /\
+             readers_profile t g' = readers_profile t g /\ ntens g <= ntens g'.
+Proof.
+  intros Hs. induction fuel as [|f IH]; intros is st st' g Hnn Hg Ht Hno H.
+  - destruct is; cbn in H; [|discriminate]. inversion H; subst. exists g. split; [exact Hg|]. split; [reflexivity|lia].
+  - destruct is as [|i later]; cbn [apply_insts] in H.
+    + inversion H; subst. exists g. split; [exact Hg|]. split; [reflexivity|lia].
+    + inversion Hnn as [|? ? Hi Hnn']; subst.
+      assert (Hno' : Z.to_nat sg <> k \/ Forall (inplace_or_quiet t) later).
+      { destruct Hno as [C|F]; [left; exact C|right; inversion F; assumption]. }
+      destruct (is_insertion (i_trans i)) eqn:Eins.
+      * destruct (apply_single st sg i later) as [[st1 later1]|] eqn:E; cbn [bind fst snd] in H; [|discriminate].
+        (* either the step is on another subgraph / tensor, or it is in place *)
+        assert (Hcase : (Z.to_nat sg <> k \/ i_tensor i <> t) \/ i_trans i = Tr_QUANTIZE_TENSOR).
+        { destruct Hno as [C|F]; [left; left; exact C|]. inversion F as [|? ? Fq _]. destruct (Fq Eins) as [A|A]; [left; right; exact A|right; exact A]. }
+        destruct Hcase as [Hne|Hqt].
+        -- destruct (apply_single_untouched _ _ _ _ _ _ _ _ _ Hs Hi Hg Ht Hne E) as (g1 & Hg1 & _ & Hn & L1 & L2).
+           destruct (apply_single_profile _ _ _ _ _ _ _ _ _ Hs Hi Hg Ht Hne E) as (g1' & Hg1' & P1).
+           rewrite Hg1 in Hg1'. inversion Hg1'; subst g1'.
+           assert (Hnn1 : Forall (fun i => 0 <= i_tensor i) later1).
+           { apply Forall_forall. intros j Hj. destruct (L2 j Hj) as [Hj0|(j0 & Hj0 & Ej)]; [exact Hj0|].
+             rewrite <- Ej. rewrite Forall_forall in Hnn'. apply Hnn'. exact Hj0. }
+           assert (Hno1 : Z.to_nat sg <> k \/ Forall (inplace_or_quiet t) later1).
+           { destruct Hno' as [C|F]; [left; exact C|].
+             destruct (Nat.eq_dec (Z.to_nat sg) k) as [Ek|Nk]; [|left; exact Nk].
+             right. apply Forall_forall. intros j Hj Hjins.
+             destruct (Z.eq_dec (i_tensor j) t) as [Ejt|Njt]; [|left; exact Njt].
+             destruct (L1 Ek j Hj Ejt) as (j0 & Hj0 & Ej0 & Etr).
+             rewrite Forall_forall in F. destruct (F j0 Hj0 ltac:(rewrite Etr; exact Hjins)) as [A|A]; [contradiction|].
+             right. congruence. }
+           destruct (IH later1 st1 st' g1 Hnn1 Hg1 ltac:(lia) Hno1 H) as (g2 & Hg2 & P2 & Hn2).
+           exists g2. split; [exact Hg2|]. split; [congruence|lia].
+        -- destruct (apply_single_inplace _ _ _ _ _ _ _ _ Hs Hqt Hg E) as (-> & g1 & Hg1 & Hops & Hn).
+           destruct (IH later st1 st' g1 Hnn' Hg1 ltac:(lia) Hno' H) as (g2 & Hg2 & P2 & Hn2).
+           exists g2. split; [exact Hg2|]. split; [|lia].
+           rewrite P2. unfold readers_profile. rewrite Hops. reflexivity.
+      * destruct (qtrans_eqb (i_trans i) Tr_EMULATED_SUBCHANNEL); [discriminate|].
+        eapply IH; eassumption.
+Qed.
+
+Definition only_inplace (k : nat) (t : Z) (tis : list tinsts) : Prop :=
+  forall ti i, In ti tis -> ti_sg ti = Z.of_nat k -> In i (ti_insts ti) -> inplace_or_quiet t i.
+
+Lemma run_all_profile2 k t : forall tis st0 st1 g0,
+  ids_ok tis -> only_inplace k t tis ->
+  nth_opt (m_subgraphs (ps_model st0)) k = Some g0 -> 0 <= t < ntens g0 ->
+  run_all tis st0 = Ok st1 ->
+  exists g', nth_opt (m_subgraphs (ps_model st1)) k = Some g' /\
+             readers_profile t g' = readers_profile t g0 /\ ntens g0 <= ntens g'.
+Proof.
+  unfold run_all. induction tis as [|ti tis IH]; intros st0 st1 g0 Hok Hno Hg Ht H; cbn [foldM] in H.
+  - inversion H; subst. exists g0. split; [exact Hg|]. split; [reflexivity|lia].
+  - inversion Hok as [|? ? [Hsg Hnn] Hok']; subst.
+    destruct (apply_insts st0 (ti_sg ti) (ti_insts ti) (length (ti_insts ti))) as [st2|] eqn:E; cbn [bind] in H; [|discriminate].
+    assert (Hno1 : Z.to_nat (ti_sg ti) <> k \/ Forall (inplace_or_quiet t) (ti_insts ti)).
+    { destruct (Z.eq_dec (ti_sg ti) (Z.of_nat k)) as [Ek|Nk].
+      - right. apply Forall_forall. intros i Hi. exact (Hno ti i (or_introl eq_refl) Ek Hi).
+      - left. lia. }
+    destruct (apply_insts_profile2 _ _ _ Hsg _ _ _ _ _ Hnn Hg Ht Hno1 E) as (g1 & Hg1 & P1 & Hn).
+    destruct (IH st2 st1 g1 Hok' (fun ti' i' Hin => Hno ti' i' (or_intror Hin)) Hg1 ltac:(lia) H) as (g2 & Hg2 & P2 & Hn2).
+    exists g2. split; [exact Hg2|]. split; [congruence|lia].
+Qed.
+
+(* a tensor that is only ever quantized IN PLACE keeps all its readers, at the
+   same operand slots, over the whole run *)
+Theorem transform_graph_readers_inplace m tis m' k g t :
+  nth_opt (m_subgraphs m) k = Some g -> 0 <= t < ntens g ->
+  ids_ok tis -> only_inplace k t tis ->
+  transform_graph m tis = Ok m' ->
+  exists g', nth_opt (m_subgraphs m') k = Some g' /\ readers_profile t g' = readers_profile t g.
+Proof.
+  intros Hg Ht Hok Hno H. unfold transform_graph in H.
+  match type of H with bind ?x _ = _ => destruct x as [st|] eqn:E end; cbn [bind] in H; [|discriminate].
+  inversion H; subst m'; clear H.
+  destruct (run_all_profile2 k t tis (init_pstate m) st g Hok Hno Hg Ht E) as (g' & A & B & _). eauto.
+Qed.
